@@ -67,7 +67,7 @@ def run_case(ctx: Ctx, topo: dict, rng: random.Random, mode: str, recs: list, me
     base = [point(coords[v]) for v in range(npts)]
     far = mode == "far"
     if far:
-        # the same topology thousands of cell sizes away from the origin, jittered by a few hundredths of a cell: what
+        # the same topology thousands of cell sizes away from the origin, jittered by a hundredth of a cell: what
         # has to be smoothed is small only RELATIVE to the coordinates
         mode = "all-free"
         base = [[p[0] + 4000.0 * scale, p[1] + 7000.0 * scale, p[2] - 2500.0 * scale] for p in base]
@@ -86,7 +86,7 @@ def run_case(ctx: Ctx, topo: dict, rng: random.Random, mode: str, recs: list, me
                 # keep the sketch planar: jitter in the sketch plane only
                 ex, ey = vector([1, 0, 0]), vector([0, 1, 0])
                 d = vadd(vmul(ex, rng.uniform(-1, 1)), vmul(ey, rng.uniform(-1, 1)))
-            pos[v] = vadd(pos[v], vmul(d, (0.03 if far else 0.3) * size))
+            pos[v] = vadd(pos[v], vmul(d, (0.008 if far else 0.3) * size))
             jittered.append(v)
     fixed: List[int] = []
     fix_by = "none"
